@@ -460,6 +460,10 @@ type c13Conc struct {
 	Writer  []c13Op `json:"writer"`
 	Queries [][2]string `json:"queries"` // (ip, interface) asked through processRequest
 	Spam    bool    `json:"spam_thread"`
+	// QueueCap > 0: the queue of gratuitous-announcement requests is shrunk to this capacity and a consumer thread does
+	// what the spam loop does with each entry (receive, then announce under the read lock): a full queue is then within
+	// the bound
+	QueueCap int `json:"spam_queue_capacity,omitempty"`
 }
 
 type c13Obs struct {
@@ -485,6 +489,9 @@ func c13ConcRun(sc c13Conc) (f *c13Fix, obs []c13Obs, finalModel refModel, state
 		model.apply(o)
 	}
 	pre := f.a.VerifDrainSpam()
+	if sc.QueueCap > 0 {
+		f.a.VerifShrinkSpamQueue(sc.QueueCap)
+	}
 	states = []refModel{model.clone()}
 	m2 := model.clone()
 	for _, o := range sc.Writer {
@@ -550,6 +557,24 @@ func c13ConcRun(sc c13Conc) (f *c13Fix, obs []c13Obs, finalModel refModel, state
 			}
 		})
 	}
+	if sc.QueueCap > 0 {
+		run("spamloop", func() {
+			for n := 0; n < len(sc.Writer); {
+				if s != nil {
+					s.Yield(func() bool { return f.a.VerifSpamQueued() > 0 || done == len(sc.Writer) }, "receive from the spam queue")
+				}
+				adv, ok := f.a.VerifTakeSpam(s == nil)
+				if !ok {
+					if s != nil && done == len(sc.Writer) {
+						return
+					}
+					continue
+				}
+				n++
+				f.a.VerifGratuitous(adv)
+			}
+		})
+	}
 	if s != nil {
 		s.Yield(func() bool { return remaining == 0 }, "join")
 	} else {
@@ -567,6 +592,7 @@ func c13ConcScenarios() []c13Conc {
 		{Name: "re-announce-with-changed-scope", Pre: []c13Op{set(0, 0, 1)}, Writer: []c13Op{set(0, 0, 2), set(0, 0, 0)}, Queries: [][2]string{{"10.0.0.4", "eth0"}, {"10.0.0.4", "eth1"}}, Spam: true},
 		{Name: "withdrawal-of-one-of-two-holders", Pre: []c13Op{set(0, 0, 0), set(1, 0, 0)}, Writer: []c13Op{del(1), del(0)}, Queries: [][2]string{{"10.0.0.4", "eth0"}, {"10.0.0.4", "eth1"}}, Spam: true},
 		{Name: "dual-address-service", Pre: []c13Op{set(0, 0, 0), set(1, 0, 0), set(1, 1, 1)}, Writer: []c13Op{del(1), set(2, 1, 0)}, Queries: [][2]string{{"10.0.0.5", "eth0"}, {"10.0.0.5", "eth1"}}, Spam: true},
+		{Name: "three-announcements-against-a-full-spam-queue", Pre: nil, Writer: []c13Op{set(0, 0, 0), set(1, 0, 0), set(2, 1, 0)}, Queries: [][2]string{{"10.0.0.4", "eth0"}}, QueueCap: 1},
 		{Name: "announce-then-withdraw", Pre: nil, Writer: []c13Op{set(0, 0, 0), del(0), set(0, 0, 1)}, Queries: [][2]string{{"10.0.0.4", "eth0"}, {"10.0.0.4", "eth1"}}, Spam: false},
 	}
 }
